@@ -185,6 +185,7 @@ pub fn dec2string(d: &BigDecimal) -> String {
     if d.fractional_digit_count() <= 0 {
         format!("{}.0", d.with_scale(0))
     } else {
-        d.to_string()
+        // NB: Display switches to scientific notation for small values, which xsd:decimal does not allow
+        d.to_plain_string()
     }
 }
